@@ -807,6 +807,11 @@ impl<'r> Gen<'r> {
                         E::LitStr((*self.rng.pick(&MEDIA)).to_owned())
                     }
                 }
+                MetaK::Headers if self.rng.chance(1, 4) && !self.header_object_vars(sc).is_empty() => {
+                    // headers through a variable bound to a literal object
+                    let cands = self.header_object_vars(sc);
+                    self.rng.pick(&cands).clone()
+                }
                 MetaK::Headers => {
                     let n = self.rng.range(0, 2);
                     let mut used = Vec::new();
@@ -839,6 +844,23 @@ impl<'r> Gen<'r> {
             None
         };
         E::Content { metas, body }
+    }
+
+    /// Variables of kind object whose declaration is a literal object of header-like properties.
+    fn header_object_vars(&self, sc: &Scope) -> Vec<E> {
+        self.var_candidates(&Ty::Obj, sc)
+            .into_iter()
+            .filter(|v| match v {
+                E::Var {
+                    target: Target::Decl(d),
+                    ..
+                } => match &self.rhs[*d] {
+                    Some(r) => matches!(r.peel(), E::Obj(ps) if ps.iter().all(|p| matches!(p.peel(), E::Prop { rhs, .. } if matches!(rhs.peel(), E::Prim(_))))),
+                    None => false,
+                },
+                _ => false,
+            })
+            .collect()
     }
 
     fn gen_content_like(&mut self, depth: usize, sc: &Scope) -> E {
